@@ -59,6 +59,9 @@ func c11Oracle(cr *caseRun) [][2]string {
 			for _, m := range it.Methods {
 				methods[m.Name] = m
 			}
+			for _, m := range it.Embeds {
+				methods[m.Name] = m
+			}
 		}
 	}
 	// 1. declarations other than imports and converter interfaces are carried over unchanged, in order
